@@ -188,6 +188,15 @@ func (s *segmentTimelineGenerator) start(newWindowSize uint32, isShifted bool) {
 	}
 }
 
+// stop stops the generation of segment times until start is called again.
+// The buffered segments are dropped, since their sequence numbers and times may no longer apply.
+// The published MPD stays until there are complete sequence numbers after its latest.
+func (s *segmentTimelineGenerator) stop() {
+	s._started = false
+	s._shifted = false
+	s.segDataBuffers = make(map[string]*segDataBuffer)
+}
+
 // generateSegmentTimelineNrMPD generates the SegmentTimelineNr MPD for the channel and writes it to disk.
 // The times are taken from the newest consecutive range of sequence numbers that all tracks have segments for.
 // s.latestSeqNr and s.oldestSeqNr are updated to the last and first number used in the segment times.
